@@ -16,10 +16,11 @@ pub mod c14;
 pub mod c15;
 pub mod families;
 pub mod c16;
+pub mod c17;
 pub mod c18;
 
 pub fn all() -> Vec<Check> {
-    vec![c01::check(), c02::check(), c03::check(), c04::check(), c05::check(), c06::check(), c07::check(), c08::check(), c12::check(), c13::check(), c14::check(), c15::check(), c16::check(), c18::check()]
+    vec![c01::check(), c02::check(), c03::check(), c04::check(), c05::check(), c06::check(), c07::check(), c08::check(), c12::check(), c13::check(), c14::check(), c15::check(), c16::check(), c17::check(), c18::check()]
 }
 
 pub fn child_main(args: &[String]) -> i32 {
